@@ -34,6 +34,11 @@ OBLIGATIONS.append(Ob(name='C11.O3.lock_discipline.lfs', harness='C11/lockdisc.c
     desc='mutex-protected consumer wrappers (cds_lfs_pop_blocking, cds_lfs_pop_all_blocking): every access to the consumer-side words happens with the structure\'s own mutex held, taken once and released once; result = result of the lock-free core (mutual exclusion of consumers is the documented scheme that rules out ABA / torn dequeues)'))
 OBLIGATIONS.append(Ob(name='C11.O3.lock_discipline.wfs', harness='C11/lockdisc.c', entry='h_lock_wfs', defines=('PART_WFS',), unwind=3, min_covers=2, checks=('--bounds-check', '--signed-overflow-check', '--div-by-zero-check'), functions=('cds_wfs_pop_blocking', 'cds_wfs_pop_with_state_blocking', 'cds_wfs_pop_all_blocking'), timeout=300, native=True,
     desc='mutex-protected consumer wrappers (cds_wfs_pop_blocking, cds_wfs_pop_with_state_blocking, cds_wfs_pop_all_blocking): every access to the consumer-side words happens with the structure\'s own mutex held, taken once and released once; result = result of the lock-free core (mutual exclusion of consumers is the documented scheme that rules out ABA / torn dequeues)'))
+# operations run from the states a suspended enqueuer / pusher leaves behind (shared with C17; late import via engine/check.py):
+# nothing is lost or reported as 'end' while a link is still in flight
+def _shared():
+    from obligations import C17 as _c17
+    return [o for o in _c17.OBLIGATIONS if o.name in ('C17.O4.frozen.wfs_pop_nb', 'C17.O4.frozen.wfs_pop_all_frozen')]
 META = {
     'level': 'proof', 'bounded_apart': True,
     'trusted_base': ['CBMC 6.11', 'sequential meaning of the uatomic/cmm primitives (atomics_seq.h)', 'canonical pool layout'],
